@@ -13,6 +13,12 @@ CHECKS = {
    note="Trusted: the hand-written reference lexer (cross-checked against the implementation on every short-line text of every run), the layout printer's claim that all layouts carry the same token sequence, no NUL bytes in source texts.",
    technique="deterministic simulation: seeded read-schedule (fragmentation) injection at the StreamReader seam, differential + reference-lexer oracle, replayable minimised plans",
    design="DESIGN.md section 4 (C13)"),
+ "C14": dict(
+   level="exploration",
+   text="One compiled program is run concurrently by 2..8 cloned contexts, each on its own real thread; a seeded scheduler in an uninstrumented hand-off keeps exactly one thread runnable and decides every switch at statement entries, temporary allocations and plugin calls, so a plan (program + preemption list + per-task fault list + lifecycle operation: purge/free/break of the original or a clone, clone-of-clone, original run first) is one exactly repeatable interleaving. Per task the bytes on the clone's own descriptor, outcome, error text and deep variable dump must equal the same source run alone in a fresh never-cloned context and alone in a fresh clone; the original must be unchanged; module objects destroyed exactly once. The same plans run under ThreadSanitizer (which cannot see the hand-off, so library accesses not ordered by the library are reported although they were serialised) and under AddressSanitizer/UBSan. Seeded sampling of interleavings: evidence, not proof.",
+   note="Trusted: the program generator stays inside deterministic, context-local language features (no random/getenv/input, no observable shared object state); switches happen only at hook points, finer-grained races rely on TSan's happens-before analysis; a TSan report counts only if the innermost located frame of both accesses lies in /repo.",
+   technique="deterministic simulation: real threads serialised by a seeded scheduler invisible to TSan, preemption + fault + lifecycle injection, differential oracle against sequential runs, TSan/ASan monitors, replayable minimised plans",
+   design="DESIGN.md section 4 (C14)"),
 }
 
 NOT_APPLICABLE = {
